@@ -106,6 +106,15 @@ def run(chk, replay=None):
             p = subprocess.run([CLI, 'redact', inp, '-o', o, '-y', '-q', keyf], stdin=subprocess.DEVNULL, capture_output=True)
             outs.append(open(o, 'rb').read() if os.path.exists(o) else b'<none rc=%d>' % p.returncode)
             chk.count()
+        # ... and two more through a symbolic link to that key file, and one from another working directory: same key, same ciphertexts
+        link = os.path.join(d, 'link.key'); os.symlink(keyf, link)
+        for i, (kp, cwd) in enumerate(((link, d), (link, d), (keyf, '/'))):
+            o = os.path.join(d, 'outl%d' % i)
+            p = subprocess.run([CLI, 'redact', inp, '-o', o, '-y', '-q', kp], stdin=subprocess.DEVNULL, capture_output=True, cwd=cwd)
+            got = open(o, 'rb').read() if os.path.exists(o) else b'<none rc=%d>' % p.returncode
+            chk.count()
+            if got != outs[0]:
+                chk.violate('a run with the same key (reached through a symbolic link / from another directory) gives different ciphertexts', {'variant': i, 'out0': outs[0][:200].decode('utf-8', 'replace'), 'got': got[:200].decode('utf-8', 'replace')}, tags=['cli', 'keypath'])
         if outs[0] != outs[1] or not outs[0]:
             chk.violate('two CLI runs with one key file differ', {'out0': outs[0][:300].decode('utf-8', 'replace'), 'out1': outs[1][:300].decode('utf-8', 'replace')}, tags=['cli'])
     chk.sample({'flags': flagsets[1], 'input': lines[31].decode('utf-8', 'replace')[:500]})
